@@ -7,7 +7,7 @@ CONSTANTS
   LegacyBreak = FALSE
   MetricDefs <- AgentMetrics
   SlotDefs <- AgentSlots
-  Sizes <- Sz13
+  Sizes <- Sz3
   WWs = {1}
   MWs = {1}
   NWs = {1}
